@@ -116,3 +116,9 @@ Check F204.Proofs.KernelAgree.kernels_agree.
 (* T2: the explicit panic sites of the crate are exactly the ones the model has a guard / Panic outcome for *)
 Require F204.Proofs.SourcePins.
 Check F204.Proofs.SourcePins.panic_sites_pinned.
+(* T6: no conditional compilation inside the algorithm files (the hooks build runs the code users run) *)
+Require F204.Proofs.SourcePins.
+Check F204.Proofs.SourcePins.algorithm_files_have_no_cfg_gates.
+(* T2: the XOF plumbing and the samplers of hashing.rs have the structure the model mirrors *)
+Require F204.Proofs.SourcePins.
+Check F204.Proofs.SourcePins.hashing_skeleton_pinned.
